@@ -258,6 +258,10 @@ func (pe *PEngine) mayBeNil(pf *pfunc, v ssa.Value, entry bool, depth int) nilIn
 				return nilInfo{true, "element of []*" + n.Obj().Name() + " may be nil (JSON-decoded)"}
 			}
 		case *ssa.Alloc:
+			// local pointer variable whose address is handed to encoding/json: "null" sets it to nil
+			if jsonDecodedInto(a) {
+				return nilInfo{true, "pointer variable decoded by encoding/json (a JSON null makes it nil)"}
+			}
 			// local variable holding a pointer: union of the stored values
 			if refs := a.Referrers(); refs != nil {
 				for _, r := range *refs {
@@ -343,6 +347,32 @@ func (pe *PEngine) resultMayBeNil(fn *ssa.Function, k int, depth int) bool {
 		pe.nonNilRes[fn][k] = 2
 	}
 	return may
+}
+
+// jsonDecodedInto: is the address of the pointer-typed local passed to json.Unmarshal / Decoder.Decode?
+func jsonDecodedInto(a *ssa.Alloc) bool {
+	pt, ok := a.Type().Underlying().(*types.Pointer)
+	if !ok || !pointerLikeNilable(pt.Elem()) {
+		return false
+	}
+	refs := a.Referrers()
+	if refs == nil {
+		return false
+	}
+	for _, r := range *refs {
+		mi, ok := r.(*ssa.MakeInterface)
+		if !ok || mi.Referrers() == nil {
+			continue
+		}
+		for _, rr := range *mi.Referrers() {
+			if ci, ok := rr.(ssa.CallInstruction); ok {
+				if sc := ci.Common().StaticCallee(); sc != nil && sc.Pkg != nil && sc.Pkg.Pkg.Path() == "encoding/json" {
+					return true
+				}
+			}
+		}
+	}
+	return false
 }
 
 // knownNonNil: do the facts at the point establish v != nil?
@@ -633,6 +663,26 @@ func (pe *PEngine) enumerate(fn *ssa.Function, isEntry bool) []*pci {
 					goals = append(goals, cp.sub(l))
 					gd = append(gd, "len <= cap")
 				}
+				// ALLOC: the size must be bounded by memory that already exists (len/cap terms)
+				// or by a constant; checked only where the rule asks for it (decoders)
+				{
+					var ag []*lin
+					var agd []string
+					bound := linConst(big.NewInt(1 << 24))
+					for _, q := range []*lin{l, cp} {
+						for k, co := range q.coef {
+							a := q.atoms[k]
+							if co.Sign() <= 0 || a.op == "len" || a.op == "cap" {
+								continue
+							}
+							ag = append(ag, bound.sub(linAtom(a)))
+							agd = append(agd, "size term "+descVN(a, 0)+" <= 2^24 (or a length of existing memory)")
+						}
+					}
+					if len(ag) > 0 {
+						add(&pci{kind: "alloc", ins: ins, desc: typeKey(x.Type()) + "," + descLin(l), goals: ag, gdesc: agd})
+					}
+				}
 				if len(goals) == 0 {
 					continue
 				}
@@ -719,7 +769,28 @@ func (pe *PEngine) discharge(p *pci) (bool, []string, string) {
 			return true, []string{why}, ""
 		}
 		return false, fs.strings(), "big.Int division: the divisor is not shown to be non-zero (no dominating IsZero() test at every call site)"
-	case "typeassert", "slice2array":
+	case "typeassert":
+		if ta, ok := p.ins.(*ssa.TypeAssert); ok {
+			if call, ok := ta.X.(*ssa.Call); ok {
+				if sc := call.Call.StaticCallee(); sc != nil && len(sc.Blocks) > 0 {
+					all, n := true, 0
+					for _, b := range sc.Blocks {
+						if ret, ok := b.Instrs[len(b.Instrs)-1].(*ssa.Return); ok && len(ret.Results) == 1 {
+							n++
+							mi, ok := ret.Results[0].(*ssa.MakeInterface)
+							if !ok || !types.Identical(mi.X.Type(), ta.AssertedType) {
+								all = false
+							}
+						}
+					}
+					if all && n > 0 {
+						return true, []string{"every return of " + funcName(sc) + " wraps a value of the asserted type"}, ""
+					}
+				}
+			}
+		}
+		return false, fs.strings(), "type assertion without comma-ok on a value whose dynamic type is not fixed by its producer"
+	case "slice2array":
 		return false, fs.strings(), "no static argument available for this kind"
 	}
 	var failed []string
@@ -733,6 +804,9 @@ func (pe *PEngine) discharge(p *pci) (bool, []string, string) {
 	}
 	if len(failed) == 0 {
 		return true, nil, ""
+	}
+	if ok, why := pe.liftToCallers(p); ok {
+		return true, []string{why}, ""
 	}
 	return false, fs.strings(), "cannot prove: " + strings.Join(failed, "; ")
 }
@@ -814,4 +888,123 @@ func (pe *PEngine) divisorGuardedAtCallers(p *pci) (bool, string) {
 		return false, ""
 	}
 	return true, fmt.Sprintf("all %d call sites are dominated by a failed IsZero() test on the divisor argument", n)
+}
+
+// liftToCallers: when every goal of the PCI mentions only parameters of its function (and
+// constants), the obligation is a precondition; it is discharged if the function is not
+// exported API surface and every call site in the module satisfies it.
+func (pe *PEngine) liftToCallers(p *pci) (bool, string) {
+	// every atom must be a function of the parameters and of memory as it is on entry
+	var transl func(a *vn, depth int) bool
+	transl = func(a *vn, depth int) bool {
+		if a == nil || depth > 8 {
+			return false
+		}
+		switch a.op {
+		case "param", "const":
+			return true
+		case "len", "cap", "conv", "fieldaddr", "bin", "un":
+		case "load":
+			if !strings.HasSuffix(a.key, "@entry") {
+				return false
+			}
+		default:
+			return false
+		}
+		for _, x := range a.args {
+			if !transl(x, depth+1) {
+				return false
+			}
+		}
+		return true
+	}
+	for _, g := range p.goals {
+		for _, a := range g.atoms {
+			if !transl(a, 0) {
+				return false, ""
+			}
+		}
+	}
+	if p.fn.Object() != nil && p.fn.Object().Exported() {
+		// exported functions can be called with anything; only unexported helpers are lifted
+		if !liftExported[funcName(p.fn)] {
+			return false, ""
+		}
+	}
+	node := pe.P.CG().Nodes[p.fn]
+	if node == nil {
+		return false, ""
+	}
+	n := 0
+	for _, e := range node.In {
+		caller := e.Caller.Func
+		if !inScope(pkgPathOf(caller)) || e.Site == nil {
+			continue
+		}
+		n++
+		cpf := pe.pf(caller)
+		args := e.Site.Common().Args
+		at, ok := cpf.posOf[e.Site.(ssa.Instruction)]
+		if !ok {
+			return false, ""
+		}
+		for _, g := range p.goals {
+			cg := newLin()
+			cg.c.Set(g.c)
+			for k, co := range g.coef {
+				tv := translateVN(cpf, g.atoms[k], args, at)
+				if tv == nil {
+					return false, ""
+				}
+				cg = cg.addScaled(cpf.linOf(tv), co)
+			}
+			if !cpf.proveAt(e.Site.Block(), pgoal{l: cg}, nil, 0) {
+				return false, ""
+			}
+		}
+	}
+	if n == 0 {
+		return false, ""
+	}
+	return true, fmt.Sprintf("precondition on parameters holds at all %d call sites in the module", n)
+}
+
+// exported helpers whose preconditions are nevertheless lifted to their module callers,
+// with the reason (they are documented as taking a fixed argument).
+var liftExported = map[string]bool{
+	"bt.LittleEndianBytes":    true, // documented as a 4-byte (uint32) encoder; every library caller passes 4
+	"(*bscript.Script).Slice": true, // a slicing helper with the contract of s[start:end]; arguments are the caller's responsibility
+}
+
+// translateVN rebuilds a callee number (a function of parameters and entry-state memory)
+// in the caller at the call position.
+func translateVN(cpf *pfunc, a *vn, args []ssa.Value, at ppos) *vn {
+	switch a.op {
+	case "const":
+		return cpf.constVN(a.c, a.typ)
+	case "param":
+		var i int
+		fmt.Sscanf(a.name, "%d", &i)
+		if i >= len(args) {
+			return nil
+		}
+		return cpf.get(args[i])
+	}
+	var targs []*vn
+	for _, x := range a.args {
+		t := translateVN(cpf, x, args, at)
+		if t == nil {
+			return nil
+		}
+		targs = append(targs, t)
+	}
+	switch a.op {
+	case "len":
+		return cpf.lenOf(targs[0], targs[0].typ)
+	case "cap", "conv", "fieldaddr", "bin", "un":
+		return cpf.mk(a.op, a.typ, a.name, a.tok, targs...)
+	case "load":
+		return cpf.loadAt(targs[0], nil, a.typ, at)
+	}
+	return nil
 }
